@@ -26,7 +26,7 @@ RULE = (
     "Hypothesis draws pairs of small runs (A, B) with <=6 (quick) / <=8 (thorough) objective calls each, optional gradient scaler; ALL interleavings of their objective calls on two threads are "
     "enumerated through a harness-owned baton (up to 252 words per pair in quick, 3432 in thorough; a deterministic stride sample beyond), plus nested invocations (B minimised completely inside A's "
     "objective at a drawn call), read-only and integer-typed x0/bounds/checkpoint arrays, a user gradient that returns one reused output buffer (must not be modified nor aliased), restart twice from the same checkpoint object (with and without scaler), every iprint level with and without "
-    "logger, and a free-running two-thread run with a 1 microsecond switch interval. Oracle: bitwise equality with the solo result computed first; inputs byte-identical afterwards. "
+    "logger, a free-running two-thread run with a 1 microsecond switch interval, and (1 case in 40) the same call in a fresh interpreter. Oracle: bitwise equality with the solo result computed first; inputs byte-identical afterwards. "
     "non-trivial = the schedule switches threads >=2 times while both runs are inside their main loop, or the call is nested, or an input is read-only / a checkpoint; distinct = distinct (pair, schedule)"
 )
 ASSUMPTIONS = [
@@ -216,6 +216,17 @@ def check_inputs(spec, stats=None):
     else:
         require(bv == b_copy, f"inputs-untouched[bounds,{variant}]", "bounds modified")
     same(base, tr, f"input-variant-{variant}")
+    # --- the same call in a fresh interpreter (sampled: process start-up is ~1 s)
+    if spec.get("fresh_process"):
+        from vf.subproc import run_in_fresh_process
+
+        fp = run_in_fresh_process(rspec)
+        if "exc" in fp:
+            raise Violation("isolated[fresh-process]", f"the call raised in a fresh process: {fp['exc']}")
+        d = states_equal(base.res, fp, fields=FIELDS)
+        require(d is None, "isolated[fresh-process]", f"result field {d!r} differs between this (long-lived, many earlier calls) process and a fresh process")
+        require(fp["n_fun_calls"] == len(base.fun_calls), "isolated[fresh-process]", "number of objective calls differs from a fresh process")
+        label += "+fresh-process"
     # --- a gradient callable that reuses one preallocated output array (user-owned data)
     if rspec["jac"] == "callable":
         tb = execute(rspec, prob=prob, jac_style="buffer")
@@ -319,7 +330,8 @@ def pair_strategy(draw, maxfun_hi, cap):
 def inputs_strategy(draw):
     r = draw(run_spec(families=ALL_FAMILIES, n_max=6, jac_modes=("callable", "callable", None), maxiter=(1, 10), maxfun=(3, 60), ftols=(0.0, 1e-12), gtols=(1e-8,), with_scaler=True, units=True))
     return {"run": r, "variant": draw(st.sampled_from(["readonly", "readonly", "list-bounds", "plain"])), "int_x0": draw(st.booleans()),
-            "ck_readonly": draw(st.booleans()), "restart_scaler": draw(st.sampled_from([None, None, 0.5, 4.0])), "extra_iter": draw(st.integers(0, 3))}
+            "ck_readonly": draw(st.booleans()), "restart_scaler": draw(st.sampled_from([None, None, 0.5, 4.0])), "extra_iter": draw(st.integers(0, 3)),
+            "fresh_process": draw(st.integers(0, 39)) == 0}
 
 
 @st.composite
